@@ -1260,6 +1260,119 @@ def exponent_not_min(F, fn, bb):
     return False, "exponent %s is not provably != i32::MIN" % txt[:100]
 
 
+def _prettified_twin_divided(F, s, e):
+    """`(&x / input).expect("Already known safe")`: on every path here a try_div!(.., input.prettify(ctx)) - a division by the
+    same input after rescaling by non-zero prefix factors - has already succeeded."""
+    fn = s.fn
+    ap = fn.apath(s.term["args"][0])
+    r = ap[0]
+    if r[0] != "call" or "arith::Div<" not in r[1] or len(r[2]) != 2:
+        return False, "the unwrapped value is not a Number division"
+    divisor = ap_str(r[2][1])
+    for g in fn.guards_of(s.bb):
+        d = fn.guard_desc(g)
+        if d[0] != "variant" or d[3] not in ("Continue", "Some", "Ok"):
+            continue
+        cur = d[1]
+        for _ in range(4):
+            rr = cur[0]
+            if rr[0] == "call" and rr[2] and rr[1].endswith(("Try>::branch", "Option::<T>::ok_or_else", "Option::<T>::ok_or")) and not cur[1]:
+                cur = rr[2][0]
+            else:
+                break
+        rr = cur[0]
+        if rr[0] == "call" and "arith::Div<" in rr[1] and len(rr[2]) == 2:
+            q = ap_str(rr[2][1])
+            if q.startswith("types::number::Number::prettify(" + divisor):
+                return True, "behind the success edge of a division by prettify(%s)" % divisor[:50]
+    return False, "no dominating successful division by the prettified divisor `%s`" % divisor[:60]
+
+
+def _property_values_nonzero(F, s, e):
+    """Every construction of a substance Property has a non-zero input: the loader's (behind both zero tests of input and
+    output), the formula's and Substance + Substance's (Number::one / one_unit)."""
+    bad = []
+    n = 0
+    for fn in F.by_crate[CORE]:
+        if fn.raw.get("from_expansion"):
+            continue
+        for i, j, st in fn.stmts():
+            rv = st.get("rv", {})
+            if st["k"] != "assign" or rv.get("k") != "agg" or not str(rv.get("adt", "")).endswith("substance::Property"):
+                continue
+            n += 1
+            f = dict(zip(rv["fields"], rv["ops"]))
+            src = ap_str(fn.apath(f["input"]))
+            if src.startswith(("types::number::Number::one()", "types::number::Number::one_unit(")):
+                continue
+            # loader: both zero tests on the input's value dominate the construction
+            iap = fn.apath(f["input"])
+            want = (iap[0], iap[1] + ("value",))
+            fz = float_zero_lines(F, fn)
+
+            def acc_for(which):
+                def acc(kind, gap, info):
+                    if kind != "bool":
+                        return None
+                    r = gap[0]
+                    if r[0] == "call" and r[1] in ("<types::numeric::Numeric as core::cmp::PartialEq>::eq", "<types::numeric::Numeric as core::cmp::PartialEq>::ne"):
+                        args = r[2]
+                        rz = [a for a in args if a[0][0] == "call" and a[0][1].endswith("::zero")]
+                        fzz = [a for a in args if a[0][0] == "const" and "promoted" in str(a[0][1]) and fn.blocks[r[3]]["term"]["loc"].get("line") in fz]
+                        z = rz if which == "rational" else fzz
+                        other = [a for a in args if a not in rz and a not in fzz]
+                        if z and other and same_value(other[0], want):
+                            return {"false"} if r[1].endswith("::eq") else {"true"}
+                    return None
+                return acc
+            r1, m1 = k2.cut_gate(fn, [i], acc_for("rational"))
+            r2, m2 = k2.cut_gate(fn, [i], acc_for("float"))
+            if not (m1 and m2 and r1[i] and r2[i]):
+                bad.append("%s at %s" % (fn.path, fn.where(i, j)))
+    if n < 3:
+        return False, "expected the three constructions of Property, found %d" % n
+    return (not bad), ("all %d Property constructions have a non-zero input (one / one_unit, or behind both zero tests)" % n if not bad else
+                        "a Property is built with an input that was not tested against zero: %s" % bad)
+
+
+def _root_degree(F, s, e):
+    """Number::root(exp) is only called with a degree >= 2: a literal, or the checked i32 conversion of the exponent's denominator
+    on the branch where the denominator is not one."""
+    G = cg.get(F)
+    root = F.find(CORE, "types::number::Number::root")
+    callers = [F.fns[a] for a, bs in G.edges.items() if root.id in bs and a != root.id]
+    bad = []
+    for cf in callers:
+        for cb in k2.call_blocks(cf, "types::number::Number::root"):
+            ap = cf.apath(cf.blocks[cb]["term"]["args"][1])
+            if ap[0][0] == "const" and isinstance(ap[0][1], int) and ap[0][1] >= 2:
+                continue
+            txt = ap_str(ap)
+            if cf.path == "types::number::Number::pow" and "BigInt::as_int(types::numeric::Numeric::to_rational(arg2.value).1)" in txt:
+                den_ne_one = any(d[0] == "bool" and d[2] is False and "BigInt as core::cmp::PartialEq>::eq" in ap_str(d[1]) and "to_rational" in ap_str(d[1])
+                                 for d in (cf.guard_desc(g) for g in cf.guards_of(cb)))
+                if den_ne_one:
+                    continue
+            bad.append("%s passes %s" % (cf.path, txt[:80]))
+    return (not bad and bool(callers)), ("root is called with the literal 2 or a checked denominator != 1 (%d callers)" % len(callers) if not bad else "; ".join(bad))
+
+
+def _aliases_acyclic(F, s, e):
+    """expand_aliases' progress asserts and canonicalize's recursion rely on registry.definitions holding no alias cycle: the
+    resolver rejects cycles within a load, and no insert can close one across loads (C13 cycle-guard rules)."""
+    import core
+    import loader_rules
+    tmp = core.Check("C13")
+    try:
+        loader_rules.visit_structure(tmp, F)
+        loader_rules.alias_cycle_guard(tmp, F)
+        loader_rules.definitions_only_for_loaded(tmp, F)
+    except AnchorLost as ex:
+        return False, "cycle-guard rules could not be evaluated: %s" % ex
+    bad = [i for i in tmp.instances if i["verdict"] != "ok"]
+    return (not bad and len(tmp.instances) >= 6), ("the loader's cycle rules hold (%d instances)" % len(tmp.instances) if not bad else bad[0]["detail"][:200])
+
+
 def _symbol_invariant(F, s, e):
     """Every symbol in substance_symbols names a registered substance: the C16 rule, evaluated here as a backing."""
     import core
@@ -1288,6 +1401,10 @@ def _operands_reset_to_one(F, s, e):
 
 BACKING = {
     "symbol_invariant": _symbol_invariant,
+    "prettified_twin_divided": _prettified_twin_divided,
+    "property_values_nonzero": _property_values_nonzero,
+    "root_degree": _root_degree,
+    "aliases_acyclic": _aliases_acyclic,
     "operands_reset_to_one": _operands_reset_to_one,
     "exponent_bound_gates": _exponent_bound_gates,
     "numeric_pow_callers": _numeric_pow_callers,
